@@ -928,7 +928,10 @@ struct Runner {
 
     void trace(const sim::Op &op) {
         if (!env.trace) return;
-        fprintf(stderr, "step %d: %s  [n=%u edges=%zu]\n", step, op.toJson().str().c_str(), m.n, m.e.size());
+        std::string es;
+        if (m.e.size() <= 40)
+            for (auto &kv : m.e) es += " " + std::to_string(kv.first.first) + (directed ? ">" : "-") + std::to_string(kv.first.second) + ":" + std::to_string(kv.second.val).substr(0, 8) + (kv.second.copies > 1 ? "x" + std::to_string(kv.second.copies) : "");
+        fprintf(stderr, "step %d: %s  [n=%u edges=%zu]%s\n", step, op.toJson().str().c_str(), m.n, m.e.size(), es.c_str());
     }
 
     void exec(const sim::Op &op) {
